@@ -45,6 +45,9 @@ def probes_enc(ck, rs):
                 if f.get('type') == 0: ck.ev.probe('key_frame')
                 if f.get('type') == 2: ck.ev.probe('intra_only_frame')
                 if f.get('ntiles', 1) > 1: ck.ev.probe('multi_tile_frame')
+                if f.get('tr', 1) > 1 and any(f.get('lr', [])): ck.ev.probe('tile_rows_with_loop_restoration')
+                if any(f.get('lr', [])): ck.ev.probe('loop_restoration_frame')
+                if f.get('cdef_any'): ck.ev.probe('cdef_frame')
                 if f.get('superres'): ck.ev.probe('superres_frame')
                 if f.get('fg'): ck.ev.probe('film_grain_frame')
         ev = r.get('events') or {}
@@ -57,7 +60,8 @@ def probes_enc(ck, rs):
 
 # ======================================================================================================
 # C04 — determinism under every interleaving, and termination
-make_diff_evaluator('C04', 'diff_C04', adopt=('TERM',))
+# a crash or hang under some schedule is schedule-dependent behaviour too (the canonical schedule is part of every family)
+make_diff_evaluator('C04', 'diff_C04', adopt=('TERM', 'CRASH'))
 
 C04_CORPUS = [
     # (cfg overrides, content, n) — chosen for sensitivity: many threads, segments, tiles, look-ahead
@@ -106,7 +110,7 @@ def check_c04(tier, seed):
             b = frs[0]
             for c, r in zip(fam, frs):
                 ck.ev.add_run(c, r, _default_key(c, r))
-                for v in relabel(single_violations(c, r, 'plain'), 'C04', ('TERM',)):
+                for v in relabel(single_violations(c, r, 'plain'), 'C04', ('TERM', 'CRASH')):
                     ck.add(v, 'single')
             if b.get('outcome') != 'ok':
                 continue
